@@ -3,7 +3,10 @@ import LunarVerif.Spec.C06
 /-! Driver for C06: `lvdriver_c06 run` (model answers) / `lvdriver_c06 judge` (Spec on impl answers).
 
 Ops (see `harness/go/cmd/c06`):
-  cfg size=<n> ttl=<s> max=<m> win=<s> t0=<ms> mode=mock|real
+  cfg size=<n> ttl=<s> max=<m> win=<s> t0=<ms> mode=mock|real|engine [anc=<max:win_s,...>]
+      (anc: the ancestors of the attached quota in the quota tree, parent first, root last;
+       mode=engine: the processor is reached through the real streams.Stream built from YAML - ops
+       `arrive` → queued | blocked | pending (call in flight, not in the queue) and `tick` → to=<ids|-> adm=<ids|->)
   arrive id=<k> prio=<p|none>          → queued | blocked
   arrive-begin id=<k> prio=<p|none>    → at-gate | blocked     (slot reserved; held at `queue.after-slot-check`)
   arrive-end id=<k>                    → queued                (k = oldest at the gate)
@@ -47,9 +50,19 @@ def parseCfg (ws : List String) : Option (Cfg × Nat × Bool) := do
   let win ← kvNat ws "win"
   let t0 ← kvNat ws "t0"
   let mode ← kv ws "mode"
-  if mode != "mock" && mode != "real" then none
+  if mode != "mock" && mode != "real" && mode != "engine" then none
   if ttl == 0 || win == 0 then none
-  pure (⟨size, ttl * 1000, qmax, win * 1000⟩, t0, mode == "real")
+  let anc ← match kv ws "anc" with
+    | none => some []
+    | some a => (a.splitOn ",").mapM fun e =>
+        match e.splitOn ":" with
+        | [m, w] => do
+          let m ← m.toInt?
+          let w ← w.toNat?
+          if w == 0 then none
+          pure (m, w * 1000)
+        | _ => none
+  pure (⟨size, ttl * 1000, qmax, win * 1000, anc⟩, t0, mode == "real")
 
 /-- The critical sections the model's atomic steps stand for: (struct, field, method) ↦ the mutexes
 that must be held at every access (`x` exclusive, `r` shared, `-` none: `Request.Wait` reads the
@@ -84,7 +97,7 @@ def lockAnswer (ws : List String) : String :=
   | _, _, _ => "bad-op"
 
 structure RunSt where
-  cfg : Cfg := ⟨0, 1000, 0, 1000⟩
+  cfg : Cfg := ⟨0, 1000, 0, 1000, []⟩
   x : Sim := { s := St.init 0 }
   ready : Bool := false
   real : Bool := false
@@ -92,9 +105,10 @@ structure RunSt where
   dead : Bool := false
   held : Bool := false       -- the loop stands at the gate before a re-push
   scanned : Bool := false    -- while held: the watcher had real time for a scan since the clock last moved
+  engine : Bool := false     -- mode=engine: only `arrive` and `tick`, answers without probe logs
   q : Option QSt := none     -- level L1: the shared queue alone
   duo : Option Duo := none   -- two processors on one quota
-  cfgB : Cfg := ⟨0, 1000, 0, 1000⟩
+  cfgB : Cfg := ⟨0, 1000, 0, 1000, []⟩
   own : List (Bool × Nat) := []   -- global id ↦ (belongs to B, local id)
 
 def RunSt.s (st : RunSt) : St := st.x.s
@@ -134,7 +148,7 @@ def parseCfg2 (ws : List String) : Option (Cfg × Cfg × Nat) := do
   let win ← kvNat ws "win"
   let t0 ← kvNat ws "t0"
   if ta == 0 || tb == 0 || win == 0 then none
-  pure (⟨sa, ta * 1000, qmax, win * 1000⟩, ⟨sb, tb * 1000, qmax, win * 1000⟩, t0)
+  pure (⟨sa, ta * 1000, qmax, win * 1000, []⟩, ⟨sb, tb * 1000, qmax, win * 1000, []⟩, t0)
 
 def duoStep (cfgA cfgB : Cfg) (own : List (Bool × Nat)) (d : Duo) (op : String) (ws : List String) :
     Option (Duo × List (Bool × Nat) × String) :=
@@ -205,7 +219,8 @@ def runStep (st : RunSt) (line : String) : RunSt × String :=
     | some (cfg, t0, real) =>
       if st.q.isSome || st.duo.isSome then (st, "bad-op") else
     if real && cfg.qmax != 0 then (st, "bad-op")
-      else ({ cfg := cfg, x := { s := St.init t0 }, ready := true, real := real }, "ok")
+      else ({ cfg := cfg, x := { s := St.init t0 }, ready := true, real := real,
+              engine := kv ws "mode" == some "engine" }, "ok")
     | none => (st, "bad-op")
   | op :: ws =>
     if let some d := st.duo then
@@ -216,6 +231,7 @@ def runStep (st : RunSt) (line : String) : RunSt × String :=
     if !st.ready then (st, "bad-op")
     else if st.dead then (st, "dead")
     else if st.drained then (st, "bad-op")
+    else if st.engine && op != "arrive" && op != "tick" then (st, "bad-op")
     else if st.held && op != "arrive" && op != "tick-release" && op != "idle" && op != "advance" then (st, "bad-op")
     else
     let n0 := st.s.trace.length
@@ -252,6 +268,9 @@ def runStep (st : RunSt) (line : String) : RunSt × String :=
       if st.real || !ws.isEmpty then (st, "bad-op") else
       let st' := st.op .tick
       let evs := newEvents st'.s n0
+      if st.engine then
+        (st', s!"to={fmtIds (timeouts evs)} adm={fmtIds (evs.filterMap fun | .done i true _ => some i | _ => none)}")
+      else
       (st', s!"to={fmtIds (timeouts evs)} log={fmtLog evs}")
     | "idle" =>
       match kvNat ws "ms" with
@@ -312,7 +331,7 @@ def runStep (st : RunSt) (line : String) : RunSt × String :=
 /-! ### judge: rebuild the observable history from the implementation's answers -/
 
 structure JudgeSt where
-  cfg : Cfg := ⟨0, 1000, 0, 1000⟩
+  cfg : Cfg := ⟨0, 1000, 0, 1000, []⟩
   now : Nat := 0
   real : Bool := false
   hold : Bool := false
@@ -325,7 +344,7 @@ structure JudgeSt where
   isQ : Bool := false
   settled : Bool := true                -- the TTL watcher had its chance since the clock last moved
   isDuo : Bool := false                 -- two processors: `hist` is A's history, `histB` B's
-  cfgB : Cfg := ⟨0, 1000, 0, 1000⟩
+  cfgB : Cfg := ⟨0, 1000, 0, 1000, []⟩
   histB : List Ev := []
   ownB : List Nat := []                 -- global ids of B's requests
   side : Bool := false                  -- events are currently recorded on B's side
@@ -387,6 +406,9 @@ def judgeStep (s : JudgeSt) (op out : String) : JudgeSt :=
     else
     match kvNat ws "id", parsePrio ws, out with
     | some i, some p, "queued" => s.push [.checked i, .queued i p s.now]
+    | some i, some p, "pending" =>
+      -- the call is in flight but has not reached the queue: for the property it waits since now
+      s.push [.checked i, .queued i p s.now]
     | some i, some _, "blocked" => s.push [.rejected i s.now]
     | _, _, "bad-op" => s
     | _, _, _ => fail "unparsable"
@@ -475,7 +497,8 @@ def judgeStep (s : JudgeSt) (op out : String) : JudgeSt :=
           | _ => if out == "bad-op" || out == "dead" then s else fail "unparsable")
        else s)
     else
-    match kv ows "to", kv ows "log" with
+    match kv ows "to", (kv ows "log").orElse (fun _ => (kv ows "adm").map fun a =>
+        if a == "-" then "-" else ",".intercalate ((a.splitOn ",").map fun i => s!"a:{i}:1,v:{i}")) with
     | some to, some lg =>
       let s1 := { s with now := s.now + 100 }
       match parseIds to with
@@ -503,7 +526,8 @@ def judgeStep (s : JudgeSt) (op out : String) : JudgeSt :=
 def firstBad (cfg : Cfg) (h : List Ev) : String :=
   let checks : List (String × (List Ev → Ev → Bool)) :=
     [("one-verdict", verdictOk), ("quota", quotaOk), ("priority", prioOk cfg), ("ttl-early", ttlLowerOk cfg),
-     ("ttl-late", ttlUpperOk cfg), ("fifo", fifoOk cfg), ("bound", boundOk cfg), ("no-panic", noPanic)]
+     ("ttl-late", ttlUpperOk cfg), ("fifo", fifoOk cfg), ("bound", boundOk cfg), ("no-panic", noPanic),
+     ("quota-rate", rateOk cfg)]
   let rec go (older : List Ev) : List Ev → Option String
     | [] => none
     | e :: rest =>
